@@ -8,11 +8,23 @@
 //! PeerEstablished(p, family subset) / EorReceived(p,f) / PeerWithdrawn(p) /
 //! TimerExpired over 3 peers × 3 families, interleaved with `insert_route`
 //! calls into deferred and non-deferred families, with an observer channel
-//! registered via `TableManager::register_peer`.
+//! registered via `TableManager::register_peer`.  Startup follows `serve`:
+//! `RestartingDeferral::new(configured GR peers)`, `start_deferral_families`
+//! for `DeferFamilies`, `Global.selection_deferral = Some(..)`.  The timer is
+//! fired through `gr_selection_deferral_timer_expired` only while the glue
+//! holds a timer handle (logical time, no wall clock).
+//!
+//! Parts (`VERIF_PART`): `exh` all event sequences of length `depth` (optionally
+//! up to peer renaming, `sym=1`), `machine` the same enumeration on the bare
+//! state machine (outputs + `is_completed()` judged), `rnd` random
+//! configurations and sequences up to 40 events in both drive modes, plus an
+//! unjudged probe of what `on_established` dumps to a new peer while a family
+//! is held.  `VERIF_REPLAY=<file>` re-executes a recorded witness.
 //!
 //! Oracle: a pending-map model written from the property statement (see
-//! `Model`).  Where the statement is silent the model keeps a third status
-//! (`Maybe`) and neither "must hold" nor "must release" is demanded.
+//! `Model`).  Where the statement is silent the model keeps extra statuses
+//! (`Maybe`, `AwaitingMaybe`) and neither "must hold" nor "must release" is
+//! demanded; such steps are counted as `unjudged:*`.
 #![allow(clippy::too_many_arguments, clippy::needless_range_loop)]
 
 use super::super::*;
@@ -735,6 +747,11 @@ struct Judge {
     obs_released: [bool; NTF],
     /// ≥1 insert was held back for the family
     held_inserts: [u32; NTF],
+    /// (peer, family): the peer re-established with a family it had already
+    /// resolved / is not configured for / that is not deferred, and has not
+    /// resolved it since — only used to name the cause of a second dump in the
+    /// signature
+    readded: [[bool; NTF]; NP],
     next_tag: u32,
     nontrivial: bool,
     judged: u64,
@@ -862,6 +879,7 @@ async fn run_ops(env: &Env, cfg: &Cfg, ops: &[Op], global: GlobalHandle, st: &mu
         tbl: (0..NTF).map(|_| (0..NPFX).map(|_| BTreeMap::new()).collect()).collect(),
         obs_released: [false; NTF],
         held_inserts: [0; NTF],
+        readded: [[false; NTF]; NP],
         next_tag: 1,
         nontrivial: false,
         judged: 0,
@@ -928,6 +946,17 @@ async fn run_ops_inner(sys: &mut Sys<'_>, j: &mut Judge, ops: &[Op], st: &mut St
                 });
                 let before = j.model.clone();
                 j.model.apply(ev);
+                let was_readded = j.readded;
+                match *ev {
+                    Ev::Est(p, m) => {
+                        for f in 0..NF {
+                            j.readded[p as usize][f] = m & (1 << f) != 0 && j.model.helper[p as usize] != 0 && (!j.model.is_deferred(f) || j.model.st[p as usize][f] == St::Maybe);
+                        }
+                    }
+                    Ev::Eor(p, f) => j.readded[p as usize][f as usize] = false,
+                    Ev::Wd(p) => j.readded[p as usize] = [false; NTF],
+                    Ev::Timer => {}
+                }
                 j.judged += 1;
                 let ch = sys.drain();
                 if want_trace {
@@ -946,13 +975,7 @@ async fn run_ops_inner(sys: &mut Sys<'_>, j: &mut Judge, ops: &[Op], st: &mut St
                                     // family twice: an End-of-RIB for a family the sending peer
                                     // was not pending for, or a peer that re-negotiated a
                                     // family which was already released / never deferred
-                                    let stray_eor = match ev {
-                                        Ev::Eor(p, ef) if *ef as usize == f => {
-                                            let p = *p as usize;
-                                            if deferred { matches!(before.st[p][f], St::NotCfg | St::Resolved) } else { before.stray[p] & (1 << f) == 0 }
-                                        }
-                                        _ => false,
-                                    };
+                                    let stray_eor = matches!(ev, Ev::Eor(p, ef) if *ef as usize == f && !was_readded[*p as usize][f]);
                                     if stray_eor { "reannounce-on-eor-for-non-pending-family" } else { "reannounce-after-renegotiation" }
                                 },
                                 format!(
